@@ -7,7 +7,7 @@ CONSTANTS
   Filter = FALSE
   RandLens = {3, 4, 5}
   RandKinds = {"const", "mov", "inc", "add", "out", "jnz", "jmp"}
-  RandCount = 2000
+  RandCount = 600
 SPECIFICATION Spec
 INVARIANT LivenessIsPathLiveness
 CHECK_DEADLOCK FALSE
